@@ -107,82 +107,283 @@ Proof.
   destruct (move_nbrs_spec _ _ _ _ _ Ncc2 NDsn Hcsn Hc2sn Emn) as [[MN Eg4] [Nsn [Nc [Nc2n [Nc2 [Nd Nother]]]]]].
   destruct (Nc NDnbc) as [NDNc MNc]. clear Nc. rewrite Ecnb3, Ecnb1 in MNc.
   assert (E2nb3 : cnb g3 c2 = []) by (rewrite Ecnb3; exact E2nb). rewrite E2nb3 in Nc2n, Nc2. specialize (Nc2n (NoDup_nil _)).
-  (* 7. - 13.: the remaining statements, each as an explicit update *)
+  (* 7. - 13.: the remaining statements; every intermediate state is kept as a variable with its defining
+     equation (projections are then computed step by step: the states nest too deeply to be unfolded at once) *)
   assert (Efx4 : fx g4 = fx g) by (rewrite Eg4, Eg3, Eg2; reflexivity).
   assert (Ecns4 : cns g4 c = [m0; m1; m2; m3]) by (rewrite Eg4, Eg3, Eg2; exact Ecns1).
   revert H. rewrite Ecns4. set (Lc := remove_nth ((i0 + 3) mod 4) [m0; m1; m2; m3]) in *.
-  set (g5 := set_cnode g4 (fset (cnode g4) c Lc)).
-  change (fx g5) with (fx g4). rewrite Efx4, Fs. intro H.
+  remember (set_cnode g4 (fset (cnode g4) c Lc)) as g5 eqn:Eg5.
+  replace (fx g5) with (fx g) by (rewrite Eg5; symmetry; exact Efx4). rewrite Fs. intro H.
   destruct (ncol_remove g5 n3 c) as [g6|] eqn:E6; cbn [bind] in H; [|discriminate].
   unfold ncol_remove in E6. destruct (sremove (ncs g5 n3) c) as [s6|] eqn:Es6; cbn [bind] in E6; [|discriminate].
-  apply sremove_ok in Es6. destruct Es6 as [Hin6 ->]. inversion E6; subst g6; clear E6.
-  match type of H with (do g0 <- set_column_num_layers ?G c2; _) = _ => set (g8 := G) in * end.
+  apply sremove_ok in Es6. destruct Es6 as [Hin6 ->]. inversion E6 as [Eg6]; clear E6. symmetry in Eg6.
+  assert (Encs5 : ncs g5 n3 = ncs g1 n3) by (rewrite Eg5, Eg4, Eg3, Eg2; reflexivity). rewrite Encs5 in Eg6, Hin6.
+  assert (Encol5 : ncol g5 = ncol g1) by (rewrite Eg5, Eg4, Eg3, Eg2; reflexivity). rewrite Encol5 in Eg6.
+  revert H. generalize (qcentroid (poly g6 (cns g6 c))) as CEN. intros CEN H.
+  remember (set_ccen g6 (fset (ccen g6) c CEN)) as g7 eqn:Eg7.
+  assert (Ecn7 : cn g7 c2 = fst ni) by (rewrite Eg7, Eg6, Eg5, Eg4, Eg3, Eg2; exact E2n).
+  assert (Ecg7 : cget g7 (fst ni) = None) by (rewrite Eg7, Eg6, Eg5, Eg4, Eg3, Eg2; exact Fresh).
+  assert (Ecns7 : cns g7 c2 = L2).
+  { rewrite Eg7, Eg6, Eg5. unfold cns. gsg. rewrite fget_fset_neq by (intro X'; apply Ncc2; symmetry; exact X').
+    rewrite Eg4, Eg3, Eg2. exact E2ns. }
+  assert (Ecl7 : clist g7 = clist g) by (rewrite Eg7, Eg6, Eg5, Eg4, Eg3, Eg2; reflexivity).
+  assert (Ecd7 : cdict g7 = cdict g) by (rewrite Eg7, Eg6, Eg5, Eg4, Eg3, Eg2; reflexivity).
+  assert (Encol7 : ncol g7 = fset (ncol g1) n3 (lremove (ncs g1 n3) c)) by (rewrite Eg7, Eg6; reflexivity).
+  remember (add_column_obj g7 c2) as g8 eqn:Eg8.
+  assert (Eg8' : g8 = set_ncol (set_cdict (set_clist g7 (clist g ++ [c2])) (aset str_eqb (cdict g) (fst ni) c2)) (addall (fset (ncol g1) n3 (lremove (ncs g1 n3) c)) L2 c2)).
+  { rewrite Eg8. unfold add_column_obj. rewrite Ecn7, Ecg7, fold_ncol_add, Ecns7, Ecl7, Ecd7. gsg. rewrite Encol7. reflexivity. }
+  clear Eg8. rename Eg8' into Eg8.
   destruct (set_column_num_layers g8 c2) as [g9|] eqn:E9; cbn [bind] in H; [|discriminate].
   destruct (set_column_num_layers_closed g8 c2 g9 E9) as [nl [Enl Eg9]].
-  match goal with g8' := add_column_obj ?G c2 |- _ => set (g7 := G) in * end.
-  assert (Eg8 : g8 = set_ncol (set_cdict (set_clist g7 (clist g ++ [c2])) (aset str_eqb (cdict g) (fst ni) c2)) (addall (ncol g7) L2 c2)).
-  { change (add_column_obj g7 c2 = set_ncol (set_cdict (set_clist g7 (clist g ++ [c2])) (aset str_eqb (cdict g) (fst ni) c2)) (addall (ncol g7) L2 c2)).
-    unfold add_column_obj.
-    assert (X : cn g7 c2 = fst ni) by (unfold g7, g5; rewrite Eg4, Eg3, Eg2; exact E2n).
-    assert (Y : cget g7 (fst ni) = None) by (unfold g7, g5; rewrite Eg4, Eg3, Eg2; exact Fresh).
-    assert (Z : cns g7 c2 = L2).
-    { unfold g7, g5, cns. gs. rewrite fget_fset_neq by (intro X'; apply Ncc2; symmetry; exact X').
-      rewrite Eg4, Eg3, Eg2. exact E2ns. }
-    rewrite X, Y, fold_ncol_add, Z. unfold g7, g5. rewrite Eg4, Eg3, Eg2. reflexivity. }
-  clearbody g8. subst g8 g9.
+  assert (Ecnl8 : cnl g8 = cnl g1) by (rewrite Eg8, Eg7, Eg6, Eg5, Eg4, Eg3, Eg2; reflexivity). rewrite Ecnl8 in Eg9.
   (* the connection between the two halves *)
-  match type of H with context [add_connection_obj ?G ?k] => set (gk := G) in *; set (knew := k) in * end.
+  set (knew := next g9) in *.
+  assert (A_knew : knew = Pos.succ (next g)) by (unfold knew; rewrite Eg9, Eg8, Eg7, Eg6, Eg5, Eg4, Eg3, Eg2; reflexivity).
+  remember (new_conn g9 c c2) as gk eqn:Egk. unfold new_conn in Egk. fold knew in Egk.
+  assert (Ekn9 : knode g9 = knode g1) by (rewrite Eg9, Eg8, Eg7, Eg6, Eg5, Eg4, Eg3, Eg2; reflexivity).
+  assert (Ek09 : kc0 g9 = K0) by (rewrite Eg9, Eg8, Eg7, Eg6, Eg5, Eg4, Eg3, Eg2; reflexivity).
+  assert (Ek19 : kc1 g9 = K1) by (rewrite Eg9, Eg8, Eg7, Eg6, Eg5, Eg4, Eg3, Eg2; reflexivity).
+  rewrite Ekn9, Ek09, Ek19 in Egk.
+  assert (Ek0k : k0 gk knew = c) by (rewrite Egk; unfold k0; gsg; apply fget_fset_eq).
+  assert (Ek1k : k1 gk knew = c2) by (rewrite Egk; unfold k1; gsg; apply fget_fset_eq).
+  assert (Efxk : fx gk = fx g) by (rewrite Egk; gsg; rewrite Eg9, Eg8, Eg7, Eg6, Eg5, Eg4, Eg3, Eg2; reflexivity).
+  assert (Ecnk : forall x, cn gk x = cn g1 x) by (intro x; rewrite Egk; unfold cn; gsg; rewrite Eg9, Eg8, Eg7, Eg6, Eg5, Eg4, Eg3, Eg2; reflexivity).
   assert (Ekk : kkey gk knew = (colname, fst ni)).
-  { unfold kkey, gk, new_conn, knew, k0, k1, cn. gs. rewrite !fget_fset_eq.
-    unfold g7, g5. gs. rewrite Eg4, Eg3, Eg2. gs. fold (cn g1 c) (cn g1 c2). rewrite E2n, (agree_cn g g1 Ag c Hc), Hcn. reflexivity. }
+  { unfold kkey. rewrite Ek0k, Ek1k, !Ecnk, E2n, (agree_cn g g1 Ag c Hc), Hcn. reflexivity. }
+  assert (Ekdk : kdict gk = kdict g) by (rewrite Egk; gsg; rewrite Eg9, Eg8, Eg7, Eg6, Eg5, Eg4, Eg3, Eg2; reflexivity).
   assert (Ekd : kget gk (colname, fst ni) = None).
-  { unfold kget, gk, new_conn. gs. unfold g7, g5. gs. rewrite Eg4, Eg3, Eg2. gs. change (kdict g1) with (kdict g).
+  { unfold kget. rewrite Ekdk.
     destruct (aget key2_eqb (kdict g) (colname, fst ni)) as [k|] eqn:Ek; [|reflexivity]. exfalso.
     destruct (s1k_kget g _ k P1k Ek) as [Hk Kk]. destruct (s3_ends g P3 k Hk) as [_ A1].
     unfold kkey in Kk. inversion Kk as [[Ka Kb]].
     pose proof (DL_aget_name str_eqb str_spec (cn g) (clist g) (cdict g) (k1 g k) (s1_c g P1) A1) as X.
     rewrite Kb in X. unfold cget in Fresh. congruence. }
-  assert (Ek0k : k0 gk knew = c) by (unfold gk, new_conn, knew, k0; gs; apply fget_fset_eq).
-  assert (Ek1k : k1 gk knew = c2) by (unfold gk, new_conn, knew, k1; gs; apply fget_fset_eq).
-  assert (Efxk : fx gk = fx g) by (unfold gk, new_conn, g7, g5; gs; rewrite Eg4, Eg3, Eg2; reflexivity).
+  assert (Eklk : klist gk = klist g) by (rewrite Egk; gsg; rewrite Eg9, Eg8, Eg7, Eg6, Eg5, Eg4, Eg3, Eg2; reflexivity).
   revert H. unfold add_connection_obj. rewrite Ekk, Ekd, Ek0k, Ek1k, Efxk, Fn. cbv zeta.
-  match goal with |- context [fx_split (fx ?G)] => change (fx G) with (fx gk) end. rewrite Efxk, Fs.
-  match goal with |- setup_names ?G = _ -> _ => set (gF := G) end. intro H.
-  (* the final state, field by field *)
-  clear Emc Emn Ecks2c Ecks2c2 Ecnb3 NDnbc E2nb3 Efx4 Ecns4 Hin6 Enl Ekk Ekd Ek0k Ek1k Efxk.
-  subst g4 g3 g2.
-  set (NC := addall (fset (ncol g1) n3 (lremove (ncs g1 n3) c)) L2 c2).
-  assert (A_knew : knew = Pos.succ (next g)) by (unfold knew, g7, g5; gsg; reflexivity).
-  assert (A_next : next gF = Pos.succ (Pos.succ (next g))) by (unfold gF, rekey_connections, nbr_add, ccon_add, gk, new_conn; gsg; rewrite <- A_knew; reflexivity).
-  assert (A_nlist : nlist gF = nlist g) by (unfold gF, rekey_connections, nbr_add, ccon_add, gk, new_conn, g7, g5; gsg; reflexivity).
-  assert (A_ndict : ndict gF = ndict g) by (unfold gF, rekey_connections, nbr_add, ccon_add, gk, new_conn, g7, g5; gsg; reflexivity).
-  assert (A_nn : forall n, nn gF n = nn g1 n) by (intro n; unfold gF, rekey_connections, nbr_add, ccon_add, gk, new_conn, g7, g5, nn; gsg; reflexivity).
-  assert (A_clist : clist gF = clist g ++ [c2]) by (unfold gF, rekey_connections, nbr_add, ccon_add, gk, new_conn; gsg; reflexivity).
-  assert (A_cdict : cdict gF = aset str_eqb (cdict g) (fst ni) c2) by (unfold gF, rekey_connections, nbr_add, ccon_add, gk, new_conn; gsg; reflexivity).
-  assert (A_cn : forall x, cn gF x = cn g1 x) by (intro x; unfold gF, rekey_connections, nbr_add, ccon_add, gk, new_conn, g7, g5, cn; gsg; reflexivity).
+  match goal with |- context [fx_split (fx ?G)] => replace (fx G) with (fx g) by (symmetry; exact Efxk) end. rewrite Fs.
+  assert (Ecck : ccon gk = MC) by (rewrite Egk; gsg; rewrite Eg9, Eg8, Eg7, Eg6, Eg5, Eg4, Eg3; reflexivity).
+  assert (Ecbk : cnbr gk = MN) by (rewrite Egk; gsg; rewrite Eg9, Eg8, Eg7, Eg6, Eg5, Eg4; reflexivity).
+  assert (Eknk : knode gk = fset (knode g1) knew None) by (rewrite Egk; reflexivity).
+  assert (Ek0kk : kc0 gk = fset K0 knew c) by (rewrite Egk; reflexivity).
+  assert (Ek1kk : kc1 gk = fset K1 knew c2) by (rewrite Egk; reflexivity).
+  assert (Ecnodek : cnode gk = fset (cnode g1) c Lc) by (rewrite Egk; gsg; rewrite Eg9, Eg8, Eg7, Eg6, Eg5; gsg; rewrite Eg4, Eg3, Eg2; reflexivity).
+  unfold rekey_connections, nbr_add, ccon_add, cks, cnb, kkey, k0, k1, cn. gsg. rewrite Eklk, Ekdk, Ecck, Ecbk, Eknk, Ek0kk, Ek1kk.
+  match goal with |- context [connection_nodes ?G c c2] => set (CN := connection_nodes G c c2) in * end.
+  match goal with |- setup_names ?G = _ -> _ => remember G as gF eqn:EgF end. intro H.
+  (* the fields of the state just before the last three updates, then of the final state *)
+  set (NC := addall (fset (ncol g1) n3 (lremove (ncs g1 n3) c)) L2 c2) in *.
+  assert (Gk : nlist gk = nlist g /\ ndict gk = ndict g /\ nname gk = nname g1 /\ ncol gk = NC /\ cname gk = cname g1 /\
+               clist gk = clist g ++ [c2] /\ cdict gk = aset str_eqb (cdict g) (fst ni) c2 /\ cnl gk = fset (cnl g1) c2 nl /\ csurf gk = csurf g1 /\
+               llist gk = llist g /\ ldict gk = ldict g /\ lname gk = lname g /\ lbot gk = lbot g /\ wlist gk = wlist g /\ wdict gk = wdict g /\ wname gk = wname g /\
+               next gk = Pos.succ knew).
+  { rewrite Egk. gsg. rewrite Eg9. gsg. rewrite Eg8. gsg. rewrite Eg7. gsg. rewrite Eg6. gsg. rewrite Eg5. gsg. rewrite Eg4, Eg3, Eg2. gsg.
+    unfold g1, new_col. gsg. repeat split; reflexivity. }
+  destruct Gk as [Gnl [Gnd [Gnn [Gnc [Gcn [Gcl [Gcd [Gcnl [Gcs [Gll [Gld [Gln [Glb [Gwl [Gwd [Gwn Gnx]]]]]]]]]]]]]]]].
+  assert (A_next : next gF = Pos.succ (Pos.succ (next g))) by (rewrite EgF; gsg; rewrite Gnx, A_knew; reflexivity).
+  assert (A_nlist : nlist gF = nlist g) by (rewrite EgF; gsg; exact Gnl).
+  assert (A_ndict : ndict gF = ndict g) by (rewrite EgF; gsg; exact Gnd).
+  assert (A_nn : forall n, nn gF n = nn g1 n) by (intro n; unfold nn; rewrite EgF; gsg; rewrite Gnn; reflexivity).
+  assert (A_clist : clist gF = clist g ++ [c2]) by (rewrite EgF; gsg; exact Gcl).
+  assert (A_cdict : cdict gF = aset str_eqb (cdict g) (fst ni) c2) by (rewrite EgF; gsg; exact Gcd).
+  assert (A_cn : forall x, cn gF x = cn g1 x) by (intro x; unfold cn; rewrite EgF; gsg; rewrite Gcn; reflexivity).
   assert (A_cns : forall x, cns gF x = if Pos.eqb x c then Lc else cns g1 x).
-  { intro x. unfold gF, rekey_connections, nbr_add, ccon_add, gk, new_conn, g7, g5, cns. gsg. rewrite fget_fset. reflexivity. }
-  assert (A_ncs : forall n, ncs gF n = fget [] NC n).
-  { intro n. unfold gF, rekey_connections, nbr_add, ccon_add, gk, new_conn, g7, g5, ncs, NC. gsg. reflexivity. }
-  assert (A_klist : klist gF = klist g ++ [knew]) by (unfold gF, rekey_connections, nbr_add, ccon_add, gk, new_conn, g7, g5; gsg; reflexivity).
+  { intro x. unfold cns. rewrite EgF. gsg. rewrite Ecnodek. apply fget_fset. }
+  assert (A_ncs : forall n, ncs gF n = fget [] NC n) by (intro n; unfold ncs; rewrite EgF; gsg; rewrite Gnc; reflexivity).
+  assert (A_klist : klist gF = klist g ++ [knew]) by (rewrite EgF; reflexivity).
   assert (A_k0 : forall k, k0 gF k = if Pos.eqb k knew then c else fget 1%positive K0 k).
-  { intro k. unfold gF, rekey_connections, nbr_add, ccon_add, gk, new_conn, g7, g5, k0. gsg. rewrite fget_fset. reflexivity. }
+  { intro k. unfold k0. rewrite EgF. gsg. rewrite Ek0kk. apply fget_fset. }
   assert (A_k1 : forall k, k1 gF k = if Pos.eqb k knew then c2 else fget 1%positive K1 k).
-  { intro k. unfold gF, rekey_connections, nbr_add, ccon_add, gk, new_conn, g7, g5, k1. gsg. rewrite fget_fset. reflexivity. }
-  assert (A_kn : forall k, kn gF k = if Pos.eqb k knew then connection_nodes gF c c2 else kn g1 k).
-  { intro k. unfold gF, rekey_connections, nbr_add, ccon_add, gk, new_conn, g7, g5, kn. gsg. rewrite fget_fset.
-    destruct (Pos.eqb k knew) eqn:X; [reflexivity|]. rewrite fget_fset. rewrite A_knew in X. change (next g1) with (Pos.succ (next g)). rewrite X. reflexivity. }
+  { intro k. unfold k1. rewrite EgF. gsg. rewrite Ek1kk. apply fget_fset. }
+  assert (A_kn : forall k, kn gF k = if Pos.eqb k knew then CN else kn g1 k).
+  { intro k. unfold kn. rewrite EgF. gsg. rewrite fget_fset. destruct (Pos.eqb k knew) eqn:X; [reflexivity|]. rewrite fget_fset, X. reflexivity. }
   assert (A_cks : forall x, cks gF x = fget [] (fset (fset MC c (sadd (fget [] MC c) knew)) c2 (sadd (fget [] (fset MC c (sadd (fget [] MC c) knew)) c2) knew)) x).
-  { intro x. unfold gF, rekey_connections, nbr_add, ccon_add, gk, new_conn, g7, g5, cks. gsg. reflexivity. }
+  { intro x. unfold cks. rewrite EgF. reflexivity. }
   assert (A_cnb : forall x, cnb gF x = fget [] (fset (fset MN c (sadd (fget [] MN c) c2)) c2 (sadd (fget [] (fset MN c (sadd (fget [] MN c) c2)) c2) c)) x).
-  { intro x. unfold gF, rekey_connections, nbr_add, ccon_add, gk, new_conn, g7, g5, cnb. gsg. reflexivity. }
-  assert (A_kdict : kdict gF = fold_left (fun acc k => aset key2_eqb acc (kkey gF k) k) (klist gF) []) by reflexivity.
+  { intro x. unfold cnb. rewrite EgF. reflexivity. }
+  assert (A_kdict : kdict gF = fold_left (fun acc k => aset key2_eqb acc (kkey gF k) k) (klist gF) []).
+  { rewrite A_klist. unfold kkey, k0, k1, cn. rewrite EgF. gsg. rewrite Ek0kk, Ek1kk. reflexivity. }
   assert (A_lay : llist gF = llist g /\ ldict gF = ldict g /\ lname gF = lname g /\ lbot gF = lbot g /\ wlist gF = wlist g /\ wdict gF = wdict g /\ wname gF = wname g).
-  { unfold gF, rekey_connections, nbr_add, ccon_add, gk, new_conn, g7, g5; gsg. auto 10. }
-  assert (A_cs : forall x, cs gF x = cs g1 x) by (intro x; unfold gF, rekey_connections, nbr_add, ccon_add, gk, new_conn, g7, g5, cs; gsg; reflexivity).
+  { rewrite EgF. gsg. auto 10. }
+  assert (A_cs : forall x, cs gF x = cs g1 x) by (intro x; unfold cs; rewrite EgF; gsg; rewrite Gcs; reflexivity).
   assert (A_cl : forall x, cl gF x = if Pos.eqb x c2 then nl else cl g1 x).
-  { intro x. unfold gF, rekey_connections, nbr_add, ccon_add, gk, new_conn, g7, g5, cl. gsg. rewrite fget_fset. reflexivity. }
+  { intro x. unfold cl. rewrite EgF. gsg. rewrite Gcnl. apply fget_fset. }
+  assert (CNeq : CN = connection_nodes gF c c2).
+  { unfold CN, connection_nodes, cns. rewrite EgF. gsg. reflexivity. }
+  assert (Ecnb4 : forall x, cnb g4 x = fget [] MN x) by (intro x; rewrite Eg4; reflexivity).
+  assert (Ecks2 : forall x, cks g2 x = cks g1 x) by (intro x; rewrite Eg2; reflexivity).
+  assert (Enl' : count_layers g (cs g1 c2) = Ok nl).
+  { rewrite <- Enl. rewrite Eg8, Eg7, Eg6, Eg5, Eg4, Eg3, Eg2. reflexivity. }
+  clearbody CN. clear EgF Egk Eg9 Eg8 Eg7 Eg6 Eg5 Eg4 Eg3 Eg2 Esw E9 Enl.
+  (* ---- the connections after the split ---- *)
+  assert (Hknew : ~ In knew (klist g)) by (intro X; apply (fr_k g F) in X; rewrite A_knew in X; lia).
+  assert (Hc_n3 : ~ In c n3cols) by (intro X; destruct (Hn3 c X) as [_ [_ [_ [X' _]]]]; apply X'; reflexivity).
+  set (rc := fun x : id => if Pos.eqb x c then c2 else x).
+  assert (Hsc : forall k, In k sc <-> In k (cks g c) /\ swapped g1 n3cols k = true) by (intro k; rewrite Esc; apply filter_In).
+  assert (Ends : forall k, In k (klist g) ->
+            (In k sc -> k0 gF k = rc (k0 g k) /\ k1 gF k = rc (k1 g k) /\
+                        ((k0 g k = c /\ In (k1 g k) n3cols) \/ (k1 g k = c /\ In (k0 g k) n3cols))) /\
+            (~ In k sc -> k0 gF k = k0 g k /\ k1 gF k = k1 g k /\
+                          (k0 g k = c -> ~ In (k1 g k) n3cols) /\ (k1 g k = c -> ~ In (k0 g k) n3cols))).
+  { intros k Hk. rewrite A_k0, A_k1, HK0, HK1.
+    assert (Nk : Pos.eqb k knew = false) by (apply Pos.eqb_neq; intros ->; contradiction). rewrite Nk.
+    rewrite (Eg1k0 k Hk), (Eg1k1 k Hk). unfold new_k0, new_k1. rewrite (Eg1k0 k Hk), (Eg1k1 k Hk).
+    pose proof (s3_neq g P3 k Hk) as Nq. unfold rc.
+    destruct (mem k (cks g c)) eqn:Mk.
+    - apply mem_In in Mk. destruct (Hcks k Mk) as [_ [E0|E1]].
+      + rewrite E0 in *. rewrite (notIn_mem_false _ _ Hc_n3), Pos.eqb_refl.
+        assert (N1 : Pos.eqb (k1 g k) c = false) by (apply Pos.eqb_neq; intro X; apply Nq; symmetry; exact X). rewrite N1.
+        destruct (mem (k1 g k) n3cols) eqn:M1; split.
+        * intros _. split; [reflexivity|]. split; [reflexivity|]. left. split; [reflexivity|apply mem_In; exact M1].
+        * intro X. exfalso. apply X. apply Hsc. split; [exact Mk|]. unfold swapped. rewrite (Eg1k0 k Hk), (Eg1k1 k Hk), E0, M1. apply orb_true_r.
+        * intro X. apply Hsc in X. destruct X as [_ X]. unfold swapped in X. rewrite (Eg1k0 k Hk), (Eg1k1 k Hk), E0, M1, (notIn_mem_false _ _ Hc_n3) in X. discriminate X.
+        * intros _. split; [reflexivity|]. split; [reflexivity|]. split; [intros _; apply mem_false; exact M1|intro X; exfalso; apply Nq; symmetry; exact X].
+      + rewrite E1 in *. rewrite (notIn_mem_false _ _ Hc_n3), Pos.eqb_refl.
+        assert (N0 : Pos.eqb (k0 g k) c = false) by (apply Pos.eqb_neq; exact Nq). rewrite N0.
+        destruct (mem (k0 g k) n3cols) eqn:M0; split.
+        * intros _. split; [reflexivity|]. split; [reflexivity|]. right. split; [reflexivity|apply mem_In; exact M0].
+        * intro X. exfalso. apply X. apply Hsc. split; [exact Mk|]. unfold swapped. rewrite (Eg1k0 k Hk), M0. reflexivity.
+        * intro X. apply Hsc in X. destruct X as [_ X]. unfold swapped in X. rewrite (Eg1k0 k Hk), (Eg1k1 k Hk), E1, M0, (notIn_mem_false _ _ Hc_n3) in X. discriminate X.
+        * intros _. split; [reflexivity|]. split; [reflexivity|]. split; [intro X; exfalso; apply Nq; exact X|intros _; apply mem_false; exact M0].
+    - apply mem_false in Mk. split.
+      + intro X. exfalso. apply Mk. apply Hsc in X. apply X.
+      + intros _. split; [reflexivity|]. split; [reflexivity|].
+        split; intros X Y; apply Mk; apply (s3_ex g P3 c Hc k); auto. }
+  assert (Hn3c : forall d, In d n3cols -> In d (clist g) /\ d <> c /\ d <> c2) by (intros d Hd; destruct (Hn3 d Hd) as [_ [_ [A [B C]]]]; auto).
+  assert (Rc : forall x, In x (clist g) -> In (rc x) (clist g ++ [c2])).
+  { intros x Hx. unfold rc. destruct (Pos.eqb x c); apply in_snoc; auto. }
+  (* the two connection sets *)
+  assert (CksF : forall x k, In k (cks gF x) <->
+            (x = c /\ ((In k (cks g c) /\ ~ In k sc) \/ k = knew)) \/ (x = c2 /\ (In k sc \/ k = knew)) \/
+            (x <> c /\ x <> c2 /\ In k (cks g1 x))).
+  { intros x k. rewrite A_cks, fget_fset. destruct (Pos.eqb_spec x c2) as [->|N2].
+    - rewrite In_sadd, fget_fset_neq by (intro X; apply Ncc2; symmetry; exact X). rewrite Cc2. cbn [In].
+      split; [intros [[[]|X]|X]; right; left; auto|]. intros [[X _]|[[_ X]|[_ [X _]]]]; [exfalso; apply Ncc2; symmetry; exact X|tauto|exfalso; apply X; reflexivity].
+    - rewrite fget_fset. destruct (Pos.eqb_spec x c) as [->|N1].
+      + rewrite In_sadd, MMc. split; [intros [X|X]; left; auto|]. intros [[_ X]|[[X _]|[X _]]]; [tauto|contradiction|exfalso; apply X; reflexivity].
+      + rewrite (Cother x N1 N2), Ecks2. split; [intro X; right; right; auto|]. intros [[X _]|[[X _]|[_ [_ X]]]]; [contradiction|contradiction|exact X]. }
   eapply setup_names_inv; [| | |exact H].
-  Show.
-  admit_tail.
+  - (* ---------------- InvS ---------------- *)
+    constructor.
+    + (* Fr *)
+      destruct F as [F1 [F2 [F3 [F4 F5]]]]. destruct A_lay as [Ll [_ [_ [_ [Lw _]]]]]. unfold Fr. rewrite A_nlist, A_clist, A_klist, A_next, Ll, Lw.
+      repeat split; intros i Hi_; try apply in_snoc in Hi_.
+      * apply F1 in Hi_. lia.
+      * destruct Hi_ as [Hi_| ->]; [apply F2 in Hi_; lia|unfold c2; lia].
+      * destruct Hi_ as [Hi_| ->]; [apply F3 in Hi_; lia|rewrite A_knew; lia].
+      * apply F4 in Hi_. lia.
+      * apply F5 in Hi_. lia.
+    + (* S1 *)
+      destruct P1 as [Dn [Dc [Dl Dw]]]. destruct A_lay as [Ll [Ld [Ln [_ [Lw [Lwd Lwn]]]]]]. split; [|split; [|split]].
+      * rewrite A_nlist, A_ndict. apply DL_ext with (name := nn g); [|exact Dn]. intros i Hi_. rewrite A_nn. apply (agree_nn g g1 Ag i Hi_).
+      * rewrite A_clist, A_cdict. apply (DL_add_new str_eqb str_spec); [|exact Hc2|rewrite A_cn; exact E2n|exact Fresh].
+        apply DL_ext with (name := cn g); [|exact Dc]. intros i Hi_. rewrite A_cn. apply (agree_cn g g1 Ag i Hi_).
+      * rewrite Ll, Ld. apply DL_ext with (name := ln g); [|exact Dl]. intros i _. unfold ln. rewrite Ln. reflexivity.
+      * rewrite Lw, Lwd. apply DL_ext with (name := wn g); [|exact Dw]. intros i _. unfold wn. rewrite Lwn. reflexivity.
+    + (* S1k: every connection is filed under the current names of its columns *)
+      unfold S1k. rewrite A_kdict, A_klist. apply (DL_rebuild key2_eqb key2_spec).
+      * apply NoDup_snoc; [apply (dl_nodup _ _ _ P1k)|exact Hknew].
+      * (* distinct connections join distinct ordered pairs of columns, and distinct columns have distinct names *)
+        assert (CnInj : forall x y, In x (clist g ++ [c2]) -> In y (clist g ++ [c2]) -> cn gF x = cn gF y -> x = y).
+        { assert (DLc : DL (cn gF) (clist gF) (cdict gF)).
+          { rewrite A_clist, A_cdict. apply (DL_add_new str_eqb str_spec); [|exact Hc2|rewrite A_cn; exact E2n|exact Fresh].
+            apply DL_ext with (name := cn g); [|exact (s1_c g P1)]. intros i Hi_. rewrite A_cn. apply (agree_cn g g1 Ag i Hi_). }
+          intros x y Hx Hy. apply (DL_inj str_eqb str_spec _ _ _ _ _ DLc); rewrite A_clist; assumption. }
+        assert (EndsIn : forall k, In k (klist g ++ [knew]) -> In (k0 gF k) (clist g ++ [c2]) /\ In (k1 gF k) (clist g ++ [c2])).
+        { intros k Hk. apply in_snoc in Hk. destruct Hk as [Hk| ->].
+          - destruct (s3_ends g P3 k Hk) as [B0 B1]. destruct (Ends k Hk) as [E1 E2].
+            destruct (in_dec Pos.eq_dec k sc) as [Hs|Hs].
+            + destruct (E1 Hs) as [-> [-> _]]. split; apply Rc; assumption.
+            + destruct (E2 Hs) as [-> [-> _]]. split; apply in_snoc; auto.
+          - rewrite A_k0, A_k1, Pos.eqb_refl. split; apply in_snoc; auto. }
+        intros k k' Hk Hk' Ekey. unfold kkey in Ekey. inversion Ekey as [[Ea Eb]].
+        destruct (EndsIn k Hk) as [X0 X1]. destruct (EndsIn k' Hk') as [Y0 Y1].
+        apply CnInj in Ea; [|assumption|assumption]. apply CnInj in Eb; [|assumption|assumption].
+        (* same ordered pair of columns after the split => same connection *)
+        apply in_snoc in Hk. apply in_snoc in Hk'.
+        assert (Kc2 : forall q, In q (klist g) -> (k0 gF q = c2 \/ k1 gF q = c2) -> In q sc).
+        { intros q Hq X. destruct (in_dec Pos.eq_dec q sc) as [Hs|Hs]; [exact Hs|]. destruct (Ends q Hq) as [_ E2]. destruct (E2 Hs) as [Q0 [Q1 _]].
+          destruct (s3_ends g P3 q Hq) as [B0 B1]. rewrite Q0, Q1 in X. destruct X as [X|X]; rewrite X in *; contradiction. }
+        destruct Hk as [Hk| ->]; destruct Hk' as [Hk'| ->]; [| | |reflexivity].
+        -- apply (s1k_kkey_inj g k k' P1k Hk Hk'). unfold kkey.
+           destruct (Ends k Hk) as [E1 E2]. destruct (Ends k' Hk') as [E1' E2'].
+           destruct (in_dec Pos.eq_dec k sc) as [Hs|Hs]; destruct (in_dec Pos.eq_dec k' sc) as [Hs'|Hs'].
+           ++ destruct (E1 Hs) as [Q0 [Q1 Q]]. destruct (E1' Hs') as [Q0' [Q1' Q']]. rewrite Q0, Q0' in Ea. rewrite Q1, Q1' in Eb. unfold rc in Ea, Eb.
+              destruct Q as [[Qa Qb]|[Qa Qb]]; destruct Q' as [[Qa' Qb']|[Qa' Qb']].
+              ** rewrite Qa, Qa'. f_equal. rewrite Qa, Qa', Pos.eqb_refl in Ea. destruct (Hn3c _ Qb) as [_ [N1 _]]. destruct (Hn3c _ Qb') as [_ [N1' _]].
+                 apply Pos.eqb_neq in N1. apply Pos.eqb_neq in N1'. rewrite N1, N1' in Eb. rewrite Eb. reflexivity.
+              ** exfalso. rewrite Qa, Pos.eqb_refl in Ea. destruct (Hn3c _ Qb') as [_ [N1' N2']]. apply Pos.eqb_neq in N1'. rewrite N1' in Ea. apply N2'. symmetry. exact Ea.
+              ** exfalso. rewrite Qa', Pos.eqb_refl in Ea. destruct (Hn3c _ Qb) as [_ [N1 N2]]. apply Pos.eqb_neq in N1. rewrite N1 in Ea. apply N2. exact Ea.
+              ** rewrite Qa, Qa'. f_equal. destruct (Hn3c _ Qb) as [_ [N1 _]]. destruct (Hn3c _ Qb') as [_ [N1' _]].
+                 apply Pos.eqb_neq in N1. apply Pos.eqb_neq in N1'. rewrite N1, N1' in Ea. rewrite Ea. reflexivity.
+           ++ exfalso. apply Hs'. apply Kc2; [exact Hk'|]. destruct (E1 Hs) as [Q0 [Q1 Q]]. rewrite <- Ea, <- Eb, Q0, Q1. unfold rc.
+              destruct Q as [[Qa _]|[Qa _]]; rewrite Qa, Pos.eqb_refl; auto.
+           ++ exfalso. apply Hs. apply Kc2; [exact Hk|]. destruct (E1' Hs') as [Q0 [Q1 Q]]. rewrite Ea, Eb, Q0, Q1. unfold rc.
+              destruct Q as [[Qa _]|[Qa _]]; rewrite Qa, Pos.eqb_refl; auto.
+           ++ destruct (E2 Hs) as [Q0 [Q1 _]]. destruct (E2' Hs') as [Q0' [Q1' _]]. rewrite Q0, Q0' in Ea. rewrite Q1, Q1' in Eb. rewrite Ea, Eb. reflexivity.
+        -- exfalso. rewrite (A_k0 knew), (A_k1 knew), Pos.eqb_refl in *. 
+           assert (Hs : In k sc) by (apply Kc2; [exact Hk|right; exact Eb]).
+           destruct (Ends k Hk) as [E1 _]. destruct (E1 Hs) as [Q0 [Q1 Q]]. rewrite Q0 in Ea. unfold rc in Ea.
+           destruct Q as [[Qa Qb]|[Qa Qb]].
+           ++ rewrite Qa, Pos.eqb_refl in Ea. apply Ncc2. symmetry. exact Ea.
+           ++ rewrite Q1, Qa in Eb. unfold rc in Eb. rewrite Pos.eqb_refl in Eb. destruct (Hn3c _ Qb) as [_ [N1 _]]. apply Pos.eqb_neq in N1. rewrite N1 in Ea. apply Pos.eqb_neq in N1. contradiction.
+        -- exfalso. rewrite (A_k0 knew), (A_k1 knew), Pos.eqb_refl in *. 
+           assert (Hs : In k' sc) by (apply Kc2; [exact Hk'|right; symmetry; exact Eb]).
+           destruct (Ends k' Hk') as [E1 _]. destruct (E1 Hs) as [Q0 [Q1 Q]]. rewrite Q0 in Ea. unfold rc in Ea.
+           destruct Q as [[Qa Qb]|[Qa Qb]].
+           ++ rewrite Qa, Pos.eqb_refl in Ea. apply Ncc2. exact Ea.
+           ++ destruct (Hn3c _ Qb) as [_ [N1 _]]. apply Pos.eqb_neq in N1. rewrite N1 in Ea. apply Pos.eqb_neq in N1. apply N1. symmetry. exact Ea.
+    + (* S2: nodes and columns *)
+      destruct P2 as [Q1 [Q2 Q3]].
+      assert (Hcn3 : In n3 (nlist g)) by (apply (Q1 c Hc); rewrite Ecns; apply Mq; cbn; auto).
+      assert (Base : forall n, In n (nlist g) -> fget [] (fset (ncol g1) n3 (lremove (ncs g1 n3) c)) n = if Pos.eqb n n3 then lremove (ncs g n3) c else ncs g n).
+      { intros n Hn. rewrite fget_fset. destruct (Pos.eqb_spec n n3) as [->|N]; [rewrite (agree_ncs g g1 Ag n3 Hcn3); reflexivity|].
+        exact (agree_ncs g g1 Ag n Hn). }
+      assert (NcsF : forall n, In n (nlist g) -> forall x, In x (ncs gF n) <->
+                (x = c2 /\ In n L2) \/ (x <> c2 /\ In x (ncs g n) /\ ~ (x = c /\ n = n3))).
+      { intros n Hn x. rewrite A_ncs. unfold NC. rewrite fget_addall, (Base n Hn).
+        assert (Nx2 : forall y, In y (ncs g n) -> y <> c2) by (intros y Hy ->; apply (Q3 n Hn c2) in Hy; destruct Hy; contradiction).
+        destruct (mem n L2) eqn:ML; [apply mem_In in ML|apply mem_false in ML].
+        - rewrite In_sadd. destruct (Pos.eqb_spec n n3) as [->|N].
+          + rewrite (In_lremove _ _ _ (Q2 n3 Hcn3)). split.
+            * intros [[A B]| ->]; [right; split; [apply Nx2; exact A|split; [exact A|intros [X _]; contradiction]]|left; auto].
+            * intros [[-> _]|[A [B C]]]; [right; reflexivity|left; split; [exact B|intros ->; apply C; auto]].
+          + split.
+            * intros [A| ->]; [right; split; [apply Nx2; exact A|split; [exact A|intros [_ X]; contradiction]]|left; auto].
+            * intros [[-> _]|[A [B C]]]; [right; reflexivity|left; exact B].
+        - destruct (Pos.eqb_spec n n3) as [->|N].
+          + exfalso. apply ML. apply ML2. auto.
+          + split.
+            * intro A. right. split; [apply Nx2; exact A|split; [exact A|intros [_ X]; contradiction]].
+            * intros [[_ X]|[A [B C]]]; [contradiction|exact B]. }
+      assert (CnsF_c : forall n, In n (cns gF c) <-> In n [m0; m1; m2; m3] /\ n <> n3).
+      { intro n. rewrite A_cns, Pos.eqb_refl. unfold Lc. rewrite Mr, Mq. fold n0 n1 n2 n3.
+        assert (N3 : n0 <> n3 /\ n1 <> n3 /\ n2 <> n3).
+        { inversion NDq as [|? ? A1 Q1']. inversion Q1' as [|? ? A2 Q2']. inversion Q2' as [|? ? A3 Q3'].
+          cbn [In] in A1, A2, A3. repeat split; intro X; [apply A1|apply A2|apply A3]; rewrite X; auto. }
+        destruct N3 as [N03 [N13 N23]]. cbn [In]. split.
+        - intros [<-|[<-|[<-|[]]]]; auto 6.
+        - intros [[<-|[<-|[<-|[<-|[]]]]] N]; auto. exfalso. apply N. reflexivity. }
+      unfold S2. rewrite A_nlist, A_clist. split; [|split].
+      * intros x Hx n Hn. apply in_snoc in Hx. destruct Hx as [Hx| ->].
+        -- destruct (Pos.eq_dec x c) as [->|Nx].
+           ++ apply CnsF_c in Hn. destruct Hn as [Hn _]. apply (Q1 c Hc). rewrite Ecns. exact Hn.
+           ++ rewrite A_cns in Hn. apply Pos.eqb_neq in Nx. rewrite Nx in Hn. rewrite (agree_cns g g1 Ag x Hx) in Hn. exact (Q1 x Hx n Hn).
+        -- rewrite A_cns in Hn. assert (X : Pos.eqb c2 c = false) by (apply Pos.eqb_neq; intro X; apply Ncc2; symmetry; exact X). rewrite X, E2ns in Hn.
+           apply ML2 in Hn. apply (Q1 c Hc). rewrite Ecns. apply Mq. cbn. fold n0 n2 n3. intuition.
+      * intros n Hn. rewrite A_ncs. unfold NC. rewrite fget_addall, (Base n Hn).
+        assert (X : NoDup (if Pos.eqb n n3 then lremove (ncs g n3) c else ncs g n)) by (destruct (Pos.eqb n n3); [apply NoDup_lremove; apply (Q2 n3 Hcn3)|apply (Q2 n Hn)]).
+        destruct (mem n L2); [apply NoDup_sadd|]; exact X.
+      * intros n Hn x. rewrite (NcsF n Hn x), in_snoc. split.
+        -- intros [[-> Hl]|[N2 [Hx Nn]]].
+           ++ split; [auto|]. rewrite A_cns. assert (X : Pos.eqb c2 c = false) by (apply Pos.eqb_neq; intro X; apply Ncc2; symmetry; exact X). rewrite X, E2ns. exact Hl.
+           ++ apply (Q3 n Hn x) in Hx. destruct Hx as [Hx Hm]. split; [auto|]. destruct (Pos.eq_dec x c) as [->|Nx].
+              ** apply CnsF_c. rewrite Ecns in Hm. split; [exact Hm|]. intros ->. apply Nn. auto.
+              ** rewrite A_cns. apply Pos.eqb_neq in Nx. rewrite Nx, (agree_cns g g1 Ag x Hx). exact Hm.
+        -- intros [[Hx| ->] Hm].
+           ++ right. assert (N2 : x <> c2) by (intros ->; contradiction). split; [exact N2|]. destruct (Pos.eq_dec x c) as [->|Nx].
+              ** apply CnsF_c in Hm. destruct Hm as [Hm N3]. split; [apply (Q3 n Hn c); split; [exact Hc|rewrite Ecns; exact Hm]|intros [_ X]; contradiction].
+              ** rewrite A_cns in Hm. pose proof Nx as Nx'. apply Pos.eqb_neq in Nx'. rewrite Nx', (agree_cns g g1 Ag x Hx) in Hm.
+                 split; [apply (Q3 n Hn x); auto|intros [X _]; contradiction].
+           ++ left. split; [reflexivity|]. rewrite A_cns in Hm. assert (X : Pos.eqb c2 c = false) by (apply Pos.eqb_neq; intro X; apply Ncc2; symmetry; exact X). rewrite X, E2ns in Hm. exact Hm.
+    + Show. admit_tail.
 Qed.
